@@ -84,6 +84,11 @@ def cases():
         cs.append(('tm.kest %d %s %s' % (k, D[name], D['one']), 'literal-estimate-' + name))
         cs.append(('tm.kestf %d %s %s' % (k, F[name], F['one']), 'literal-estimate-float-' + name))
         cs.append(('tm.kcx %d %s %s' % (k, D[name], D['one']), 'literal-complex-' + name))
+    # several constants evaluated in one function (k = 100+i: in the order +0 -0 one -one +inf -inf, k = 200+i: in the reverse order)
+    for i, name in enumerate(['+0', '-0', 'one', '-one', '+inf', '-inf']):
+        for base in (100, 200):
+            cs.append(('tm.kd %d %s' % (base + i, D[name]), 'constants-in-one-function-double-' + name))
+            cs.append(('tm.kf %d %s' % (base + i, F[name]), 'constants-in-one-function-float-' + name))
     # two special values at once
     for a, b in itertools.product(['qnan', '+inf', '-0', 'max'], repeat=2):
         cs.append(('tm.cx %s %s' % (D[a], D[b]), 'complex-pair'))
